@@ -421,6 +421,25 @@ class Interp:
             return I(v["rawint"])
         return TOP
 
+    def inline_const_key(self, r):
+        """Body key of the inline constant an rvalue `use(const {..})` evaluates, when the dump has its body."""
+        if r.get("k") != "use":
+            return None
+        o = r["o"]
+        if o.get("k") != "const" or "uneval" not in o:
+            return None
+        u = o["uneval"]
+        if "promoted" in u or "{constant#" not in u.get("def", ""):
+            return None
+        idx = getattr(self.prog, "_inline_consts", None)
+        if idx is None:
+            idx = {}
+            for k, b in self.prog.bodies.items():
+                if "{constant#" in b.get("def", "") and "promoted[" not in k:
+                    idx.setdefault(b["def"], k)
+            self.prog._inline_consts = idx
+        return idx.get(u["def"])
+
     def promoted(self, st, fr, idx):
         key = fr.key + "::promoted[%d]" % idx
         if key in self._prom:
@@ -732,6 +751,9 @@ class Interp:
             return None
         if caller.kind == "glue":
             return st
+        if isinstance(fr.ret_bb, tuple):
+            caller.bb, caller.si = fr.ret_bb[1], fr.ret_bb[2]
+            return st
         caller.bb = fr.ret_bb
         caller.si = 0
         return st
@@ -750,6 +772,8 @@ class Interp:
             return st
         if action == "cont" or action is None:
             return self.finish_frame(st, None, floor, outcomes, unwinding=True)
+        if action == "const-fail":
+            return None
         st.event("abort", caller.key)
         outcomes.append(Outcome("abort", None, st))
         return None
@@ -766,6 +790,14 @@ class Interp:
             fr.si += 1
             k = s["k"]
             if k == "assign":
+                ck = self.inline_const_key(s["r"])
+                if ck is not None:
+                    # `const { .. }`: evaluated per instantiation; interpreted in place like a call without arguments,
+                    # so that what it compares becomes a fact of this path (a failing const assertion is a compile
+                    # error of that instantiation, not a runtime path)
+                    dest = self.resolve_place(st, fr, s["p"])
+                    self.push_call(st, ck, [], dest, ("resume", fr.bb, fr.si), "const-fail")
+                    return st
                 v = self.rvalue(st, fr, s["r"])
                 self.write_place(st, fr, s["p"], v)
             elif k == "setdiscr":
@@ -1378,6 +1410,24 @@ def p_vec_len(ip, st, args, info):
     return _ret(st, I(len(v[1])))
 
 
+def p_vec_truncate(ip, st, args, info):
+    r = args[0]
+    v = ip.read(st, r[1], r[2])
+    n = args[1] if len(args) > 1 else I(0)
+    if v[0] != "vec":
+        return _ret(st, UNIT)
+    if not is_int(n):
+        raise Unmodelled("Vec::truncate to a length that is not known")
+    for x in v[1][n[1]:]:
+        st.event("vec_remove", r[1], r[2], x)
+    ip.write(st, r[1], r[2], ("vec", v[1][:n[1]]))
+    return _ret(st, UNIT)
+
+
+def p_vec_clear(ip, st, args, info):
+    return p_vec_truncate(ip, st, [args[0], I(0)], info)
+
+
 def p_box_new(ip, st, args, info):
     a = st.new_alloc("box", args[0])
     return _ret(st, ref(a, ()))
@@ -1476,6 +1526,8 @@ BASE_PRIMS = {
     "alloc::vec::Vec::pop": p_vec_pop,
     "alloc::vec::Vec::is_empty": p_vec_is_empty,
     "alloc::vec::Vec::len": p_vec_len,
+    "alloc::vec::Vec::truncate": p_vec_truncate,
+    "alloc::vec::Vec::clear": p_vec_clear,
     "alloc::boxed::Box::new": p_box_new,
     "core::mem::ManuallyDrop::new": p_identity,
     "core::mem::manually_drop::ManuallyDrop::new": p_identity,
